@@ -49,12 +49,16 @@ fn c10_single_byte_corruptions_fail_cleanly() {
             let mut buf = good.clone();
             buf[pos] = v;
             let res = catch_unwind(AssertUnwindSafe(|| {
-                let mut e = Engine::from_rules(["||before.example^"], ParseOptions::default());
+                let mut e = Engine::from_rules(["||before.example^", "before.example##.before", "##.generic-before"], ParseOptions::default());
+                e.enable_tags(&["kept"]);
                 match e.deserialize(&buf) {
                     Ok(()) => exercise(&mut e),
                     Err(_) => {
                         let r = Request::new("https://before.example/x", "https://a.com/", "script").unwrap();
                         assert!(e.check_network_request(&r).matched, "after a failed load the engine must answer as before");
+                        assert!(e.url_cosmetic_resources("https://before.example/").hide_selectors.contains(".before"), "after a failed load the cosmetic rules must be as before");
+                        assert_eq!(e.hidden_class_id_selectors(["generic-before"], Vec::<&str>::new(), &Default::default()), vec![".generic-before".to_string()]);
+                        assert!(e.tag_exists("kept"));
                     }
                 }
             }));
@@ -63,6 +67,24 @@ fn c10_single_byte_corruptions_fail_cleanly() {
     }
     std::panic::set_hook(prev);
     assert!(failures.is_empty(), "{} corruptions of a {}-byte buffer panic; first: byte {} := {:#04x} (was {:#04x})", failures.len(), good.len(), failures[0].0, failures[0].1, good[failures[0].0]);
+}
+
+/// OBL C10.witness.failed_loads_change_nothing
+#[test]
+fn c10_failed_loads_change_nothing() {
+    // buffers that fail early: empty, magic only, wrong version, gzip header (legacy format), every proper prefix of a good buffer
+    let good = Engine::from_rules_parametrised(rules(), ParseOptions::default(), true, true).serialize_raw().unwrap();
+    let mut bufs: Vec<Vec<u8>> = vec![vec![], good[..4].to_vec(), vec![0x1f, 0x8b, 8, 0, 0, 0, 0, 0], { let mut b = good.clone(); b[4] = b[4].wrapping_add(1); b }];
+    for n in (0..good.len()).step_by(7) { bufs.push(good[..n].to_vec()); }
+    for buf in bufs {
+        let mut e = Engine::from_rules(["||before.example^", "before.example##.before", "before.example##+js(x)", "##.generic-before"], ParseOptions::default());
+        let before = (e.url_cosmetic_resources("https://before.example/").hide_selectors, e.serialize_raw().unwrap());
+        if e.deserialize(&buf).is_err() {
+            assert!(e.check_network_request(&Request::new("https://before.example/x", "https://a.com/", "script").unwrap()).matched);
+            assert_eq!(e.url_cosmetic_resources("https://before.example/").hide_selectors, before.0, "a failed load of {} bytes changed the cosmetic rules", buf.len());
+            assert!(e.serialize_raw().unwrap() == before.1, "a failed load of {} bytes changed the engine", buf.len());
+        }
+    }
 }
 
 /// OBL C10.witness.emptied_strings
